@@ -945,6 +945,21 @@ def c14_packets(r, toks, per_shape):
                 lines.append(orb_pkt("recv", 1000, hyp_fwd(tok, domain=1, recipient=rec, gas=gas, fee=fee)))
     for t in [b"", b"\x01" * 31, b"\x02" * 32]:
         lines.append(orb_pkt("recv", 1000, hyp_fwd(t, domain=1)))
+    # extreme values all the way into the bridge modules: a gas paymaster as hook (its arithmetic runs on the payload's numbers), coins of
+    # its denomination at hand, amounts at the width of the integers with escrow to match, long metadata, every maximum fee
+    tok_o = toks[1][0] if len(toks) > 1 else tok
+    lines.append("escrowfund %s %s %d" % (hx("channel-0"), hx("uother"), 2 ** 255))
+    lines.append("env hyp igp %s 1 10000000000 1 100000" % hx("stake"))
+    for amt in (1, 2 ** 64, 2 ** 128, 2 ** 200, 2 ** 254):
+        for gas in (0, 1, 2 ** 63, 2 ** 64 - 1, 2 ** 64, -1):
+            for fee in (("stake", 2 ** 256 - 1), ("stake", 1), ("uother", 2 ** 255), None):
+                lines.append("deposit %s %s %d" % (hx(ORB_BYTES), hx("stake"), 10 ** 12))
+                lines.append(orb_pkt("recv", amt, hyp_fwd(tok_o, domain=1, gas=gas, fee=fee, meta=r.choice([None, "0x", "0x" + "ab" * 5000])), denom="uother"))
+    lines.append(orb_pkt("recv", 2 ** 254, hyp_fwd(tok_o, domain=1, gas=7, fee=("stake", 10 ** 9), hook=b"router_post_dispatch" + (4).to_bytes(4, "big") + (1).to_bytes(8, "big")), denom="uother"))
+    lines.append("env hyp noop")
+    for amt in (2 ** 64, 2 ** 128, 2 ** 200):
+        lines.append(orb_pkt("recv", amt, int_fwd(U[1]), [fee_action([(U[0], "b", 9999)])], denom="uother"))
+        lines.append(orb_pkt("recv", amt, hyp_fwd(tok_o, domain=1), [fee_action([(U[0], "b", 1)])], denom="uother"))
     # fee extremes end to end
     lines.append(orb_pkt("recv", 2 ** 256 - 1, int_fwd(U[1]), [fee_action([(U[0], "a", 2 ** 255), (U[2], "a", 2 ** 255)])], denom="uother"))
     lines.append(orb_pkt("recv", 10 ** 30, int_fwd(U[1]), [fee_action([(U[0], "b", 10000), (U[2], "b", 10000)])], denom="uother"))
